@@ -103,6 +103,7 @@ func VerifC07_v1_main_graceful() {
 		}
 		dd.getLimitedFeedback()
 	})
+	vTermWatch(d.err)
 	d.main()
 	vReach("returned")
 	g := vSumAssert("in flight at return", e.inflight()...)
